@@ -130,6 +130,15 @@ def build(w, s):
                                             start_time=lk["start"] if lk["start"] >= 0 else None,
                                             end_time=lk["end"] if lk["end"] >= 0 else None)
     attach_controls(w, wn, s, lambda k: wn.get_link(s["links"][k - 1]["name"]))
+    C = w.network.controls
+    for i, c in enumerate(s.get("cctl", [])):
+        link = wn.get_link(c["link"])
+        if c["what"] == "status":
+            act = C.ControlAction(link, "status", _status(w, c["val"]))
+        else:
+            act = C.ControlAction(link, "setting", c["val"])
+        cond = C.ValueCondition(wn.get_node(c["node"]), c["attr"], c["rel"], c["thr"])
+        wn.add_control("cctl%d" % i, C.Control(cond, act, priority=c["prio"]))
     return wn
 
 
